@@ -30,9 +30,16 @@ Definition key_new (k : bytes) : key := mkKey k None decor_default decor_default
    (repr.rs: Decor::clear sets prefix and suffix to None) *)
 Definition key_fmt (k : key) : key := mkKey (k_key k) None decor_default decor_default.
 
-(* IndexMap::insert(key, item) (Extend for InlineTable / Table): an occupied entry keeps its
-   stored key and position and gets the new item, a vacant one is appended *)
-Definition kv_insert (m : kvs) (k : key) (it : item) : kvs :=
+(* Extend for InlineTable / Table: `self.remove_placeholder(key.get()); self.items.insert(key, value)` —
+   IndexMap::insert: an occupied entry keeps its stored key and position and gets the new item,
+   a vacant one is appended *)
+(* table.rs: Table::remove_placeholder / inline_table.rs: InlineTable::remove_placeholder —
+   `if let Some(Item::None) = self.items.get(key) { self.items.shift_remove(key); }` *)
+Definition kv_purge (m : kvs) (k : bytes) : kvs :=
+  match kv_get m k with Some (_, INone) => kv_remove m k | _ => m end.
+
+Definition kv_insert (m0 : kvs) (k : key) (it : item) : kvs :=
+  let m := kv_purge m0 (k_key k) in       (* Extend: `self.remove_placeholder(key.get())` *)
   match kv_get m (k_key k) with
   | Some _ => kv_set m (k_key k) it
   | None => kv_push m k it
@@ -131,8 +138,10 @@ Fixpoint kv_set_fmt (m : kvs) (k : bytes) (v : item) : kvs :=
     if bytes_eqb (k_key k') k then (key_fmt k', v) :: tl else (k', v') :: kv_set_fmt tl k v
   end.
 (* table.rs: Table::insert / inline_table.rs: InlineTable::insert (the same on `items`):
-   `let key = Key::new(key); match self.items.entry(key.clone()) { Occupied => .., Vacant => entry.insert(item) }` *)
-Definition items_insert (m : kvs) (k : bytes) (it : item) : kvs :=
+   `self.remove_placeholder(key); let key = Key::new(key);
+    match self.items.entry(key.clone()) { Occupied => .., Vacant => entry.insert(item) }` *)
+Definition items_insert (m0 : kvs) (k : bytes) (it : item) : kvs :=
+  let m := kv_purge m0 k in                (* `self.remove_placeholder(key)` *)
   match kv_get m k with
   | Some _ => kv_set_fmt m k it
   | None => kv_push m (key_new k) it
@@ -426,10 +435,12 @@ Definition op_slot (k : bytes) (conv : item -> option item) (it : item) : option
 (* `*index_mut(k1)...index_mut(kn) = x`.
    impl Index for str, index_mut: `if let Item::None = *v { let mut t = InlineTable::default();
    t.items.insert(Key::new(self), Item::None); *v = value(Value::InlineTable(t)); }` then
-   Table => `t.entry(self).or_insert(Item::None)`, inline table => `t.items.entry(Key::new(self))
-   .or_insert_with(|| Item::None)`, anything else => None (`expect("index not found")` panics).
+   Table => `t.entry(self).or_insert(Item::None)` (Table::entry starts with `remove_placeholder`),
+   inline table => `t.remove_placeholder(self); t.items.entry(Key::new(self)).or_insert_with(|| Item::None)`,
+   anything else => None (`expect("index not found")` panics).
    IndexMut<&str> for DocumentMut / Table: `self.entry(key).or_insert(Item::None)`. *)
-Definition entry_or_none (m : kvs) (k : bytes) : kvs * item :=
+Definition entry_or_none (m0 : kvs) (k : bytes) : kvs * item :=
+  let m := kv_purge m0 k in                (* Table::entry / index_mut: `remove_placeholder(key)` first *)
   match kv_get m k with
   | Some (_, i) => (m, i)
   | None => (kv_push m (key_new k) INone, INone)
